@@ -1053,8 +1053,8 @@ func execGrowth(sc *vmScenario, res *kernel.Result) {
 	// (the second run of a program may legitimately compile to a few more instructions than the first: redefinitions)
 	const secondMainSlack = 8
 	rep := sc.Repeat
-	if rep < 3 {
-		rep = 3
+	if rep < 4 {
+		rep = 4
 	}
 	for r := 0; r < rep; r++ {
 		for _, t := range texts {
@@ -1110,19 +1110,23 @@ func execGrowth(sc *vmScenario, res *kernel.Result) {
 		nGlobals := len(env.VerifGlobalNames())
 		if r == 0 {
 			first = dv
-			firstMain, firstGlobals = di.MainLen, nGlobals
 			continue
+		}
+		if r == 1 {
+			// the second run is the reference for code size and names: a first run may fail half-way on a name that
+			// a later form of the same program defines, so that only from the second run on the whole program runs
+			firstMain, firstGlobals = di.MainLen, nGlobals
 		}
 		if dv != first {
 			fail("N-no-growth", "stacks", "after %d repetitions of %s the stacks are %+v, after the first %+v: an idle interpreter grows with the evaluations it has served", r+1, mustJSON(texts), dv, first)
 			return
 		}
 		if r >= 2 && di.MainLen > firstMain+secondMainSlack {
-			fail("N-no-growth", "main-code", "after %d repetitions of %s the interpreter holds %d instructions for its main function, after the first %d: the code of every evaluation ever served is kept", r+1, mustJSON(texts), di.MainLen, firstMain)
+			fail("N-no-growth", "main-code", "after %d repetitions of %s the interpreter holds %d instructions for its main function, after the second %d: the code of every evaluation ever served is kept", r+1, mustJSON(texts), di.MainLen, firstMain)
 			return
 		}
-		if nGlobals > firstGlobals {
-			fail("N-no-growth", "global-names", "after %d repetitions of %s the global scope binds %d names, after the first %d: every repetition adds names", r+1, mustJSON(texts), nGlobals, firstGlobals)
+		if r >= 2 && nGlobals > firstGlobals {
+			fail("N-no-growth", "global-names", "after %d repetitions of %s the global scope binds %d names, after the second %d: every repetition adds names", r+1, mustJSON(texts), nGlobals, firstGlobals)
 			return
 		}
 	}
